@@ -20,7 +20,7 @@ from autofit.database.model import sa           # noqa: E402
 from autoconf.dictable import to_dict, from_dict    # noqa: E402
 from autofit.mapper.prior.abstract import Prior  # noqa: E402
 from autofit.mapper.prior.tuple_prior import TuplePrior  # noqa: E402
-from autofit.mapper.prior.arithmetic.compound import CompoundPrior  # noqa: E402
+from autofit.mapper.prior.arithmetic.compound import CompoundPrior, ModifiedPrior  # noqa: E402
 from autofit.mapper.prior.arithmetic.assertion import (  # noqa: E402
     GreaterThanLessThanAssertion, GreaterThanLessThanEqualAssertion, CompoundAssertion, ComparisonAssertion)
 from autofit.mapper.prior_model.prior_model import Model  # noqa: E402
@@ -130,8 +130,12 @@ def abstract_expr(o):
     if isinstance(o, (float, int)):
         return {"t": "const", "v": hexf(float(o))}
     if isinstance(o, CompoundPrior) and not isinstance(o, ComparisonAssertion):
-        op = {"SumPrior": "+", "MultiplePrior": "*", "DivisionPrior": "/"}.get(type(o).__name__, type(o).__name__)
+        op = {"SumPrior": "+", "MultiplePrior": "*", "DivisionPrior": "/", "ModPrior": "%", "FloorDivPrior": "//"}.get(type(o).__name__, type(o).__name__)
         return {"t": "arith", "op": op, "l": abstract_expr(o._left), "r": abstract_expr(o._right)}
+    if isinstance(o, ModifiedPrior):                 # -x, abs(x)
+        op = {"NegativePrior": "neg", "AbsolutePrior": "abs"}.get(type(o).__name__, type(o).__name__)
+        return {"t": "unary", "op": op, "name": o._prior_name, "a": abstract_expr(o.__dict__.get(o._prior_name)),
+                "keys": [k for k in o.__dict__ if not k.startswith("_") and k != "id"]}
     return {"t": "other", "repr": type(o).__name__}
 
 
@@ -166,7 +170,7 @@ def abstract_state(obj, occ):
         ms = [[k, abstract_state(v, occ)] for k, v in obj.__dict__.items() if not k.startswith("_") and k != "id"]
         return {"t": "tuple", "members": ms}
     if isinstance(obj, CompoundPrior) and not isinstance(obj, ComparisonAssertion):
-        op = {"SumPrior": "+", "MultiplePrior": "*", "DivisionPrior": "/"}.get(type(obj).__name__, type(obj).__name__)
+        op = {"SumPrior": "+", "MultiplePrior": "*", "DivisionPrior": "/", "ModPrior": "%", "FloorDivPrior": "//"}.get(type(obj).__name__, type(obj).__name__)
         keys = [k for k in obj.__dict__ if not k.startswith("_") and k != "id"]
         ln, rn = obj._left_name, obj._right_name
         # the walk of the library goes over __dict__: when both operands are stored under one attribute
@@ -177,6 +181,11 @@ def abstract_state(obj, occ):
         if ln not in keys or ln == rn:
             ln = rn
         return {"t": "arith", "op": op, "ln": ln, "rn": rn, "l": sub_l, "r": sub_r, "keys": keys}
+    if isinstance(obj, ModifiedPrior):
+        # one operand, kept under the attribute named by `_prior_name` (written and read back by every storage form)
+        op = {"NegativePrior": "neg", "AbsolutePrior": "abs"}.get(type(obj).__name__, type(obj).__name__)
+        keys = [k for k in obj.__dict__ if not k.startswith("_") and k != "id"]
+        return {"t": "unary", "op": op, "name": obj._prior_name, "a": abstract_state(obj.__dict__.get(obj._prior_name), occ), "keys": keys}
     if isinstance(obj, Model):
         attrs = [[k, abstract_state(v, occ)] for k, v in obj.__dict__.items() if not k.startswith("_") and k not in ("id", "cls")]
         return {"t": "model", "cls": obj.cls.__name__, "attrs": attrs,
